@@ -9,22 +9,25 @@ import json, os, re, glob, shutil, sys
 V = "/verif"
 det = json.load(open(os.path.join(V, "seeded", "detect.json")))
 demo = {}
-if os.path.exists("/tmp/seeddemo_results.txt"):
-    for l in open("/tmp/seeddemo_results.txt"):
-        m = re.match(r"/tmp/seed/out-(C\d+)/([ab]) .*HEAD: rc=(\S+) .*PATCHED: rc=(\S+) .*=> (\S+)", l)
+R2 = {"a": "c", "b": "d"}      # second round: out2-<prop>/a -> <prop>c, b -> <prop>d
+for f in glob.glob("/tmp/seeddemo*_results.txt"):
+    for l in open(f):
+        m = re.match(r"/tmp/seed/out(2?)-(C\d+)/([ab]) .*HEAD: rc=(\S+) .*PATCHED: rc=(\S+) .*=> (\S+)", l)
         if m:
-            demo[m.group(1) + m.group(2)] = (m.group(3), m.group(4), m.group(5))
+            sid = m.group(2) + (R2[m.group(3)] if m.group(1) else m.group(3))
+            demo[sid] = (m.group(4), m.group(5), m.group(6))
 ctest = {}
 for f in sorted(glob.glob("/tmp/seedconfirm_results*.txt")):
     for l in open(f):
-        m = re.match(r"(C\d+[ab]): build=(\S+) (.*tests passed.*?) notpassed:\s*(.*)$", l)
+        m = re.match(r"(C\d\d)(2?)([ab]): build=(\S+) (.*tests passed.*?) notpassed:\s*(.*)$", l)
         if m:
-            ctest[m.group(1)] = (m.group(2), m.group(3).strip(), m.group(4).strip())
+            sid = m.group(1) + (R2[m.group(3)] if m.group(2) else m.group(3))
+            ctest[sid] = (m.group(4), m.group(5).strip(), m.group(6).strip())
 rows = []
 kept = 0
 for sid in sorted(det):
     d = det[sid]
-    src = "/tmp/seed/out-%s/%s" % (sid[:3], sid[3])
+    src = d.get("src") or "/tmp/seed/out-%s/%s" % (sid[:3], sid[3])
     dst = os.path.join(V, "seeded", sid)
     dm = demo.get(sid); ct = ctest.get(sid)
     if os.path.isdir(src):
